@@ -9,6 +9,7 @@ UNITS = [
     snapshot.chunk_done_unit('C01'),
     restore.plan_unit('C01'),
     restore.write_ref_unit('C01'),
+    restore.restore_tail_unit('C01'),
     restore.write_part_unit('C01'),
     c01_lemmas.lemmas('C01'),
 ]
